@@ -932,7 +932,7 @@ pub fn run_c02(ctx: &Ctx) -> i32 {
     sample_from_plan(&plan, &mut acc);
     let fin = Finish {
         level: "model_checking",
-        rule: format!("stateless exploration of the sampler machine into the corners of the hypercube: every sector, every answer sequence with at most {} deviations over the full xi alphabet (2^-1074 ... 1-2^-53) and interval-end selection answers (full product when small), in the base routing and in the sector's tropical routing; at each execution the implementation's logged tropical values are compared with the exact Symanzik polynomials and the returned weight with the graph-only interval; non-trivial = judged executions of configurations with N_T >= 2 and >= 2 distinct F coefficients", plan.k),
+        rule: format!("stateless exploration of the sampler machine into the corners of the hypercube: every sector, every answer sequence with at most {} deviations over the full xi alphabet (2^-1074 ... 1-2^-53) and interval-end selection answers (full product when small), in the base routing and in the sector's tropical routing; at each execution the implementation's logged tropical values are compared with the exact Symanzik polynomials and the returned weight with the graph-only interval; non-trivial = judged executions of configurations with N_T >= 2 and >= 2 distinct F coefficients. Additional passes with the same point function: size ladder (beyond 6 loops / 8 edges / 64 signature entries, fixed sector subset), in-place histories on fresh threads (a different sampler sampled first in the same memory slot), kinematic units 2^-30 and 2^24", plan.k),
         states: acc.get("executions"),
         transitions: acc.get("answers_consumed"),
         traces: acc.get("points_judged") + acc.get("polynomial_bounds_judged"),
@@ -1372,7 +1372,7 @@ pub fn run_simple(ctx: &Ctx) -> i32 {
     }
     let fin = Finish {
         level: "model_checking",
-        rule: format!("stateless exploration of the sampler machine: for every admissible configuration of the family, every sector (removal order) is entered with midpoint selection answers; every answer sequence with at most {k} deviations from the defaults over the roles {:?} (full alphabet product when small) is executed on the real code and compared with the reference machine; states = (configuration, sector, answer-prefix) nodes = executions; transitions = answers consumed; non-trivial = executions judged by at least the main clause", (plan.roles.u, plan.roles.xi, plan.roles.p, plan.roles.ab)),
+        rule: format!("stateless exploration of the sampler machine: for every admissible configuration of the family, every sector (removal order) is entered with midpoint selection answers; every answer sequence with at most {k} deviations from the defaults over the roles {:?} (full alphabet product when small) is executed on the real code and compared with the reference machine; states = (configuration, sector, answer-prefix) nodes = executions; transitions = answers consumed; non-trivial = executions judged by at least the main clause. Additional passes with the same point function: (i) SIZE LADDER - configurations beyond 6 loops / 8 edges / 64 signature entries (polygons to 10 edges, bananas and flowers to 8 loops, a 13-edge 5-loop chorded cycle; thorough: to 12 edges, 9 loops, a 17-edge 4-loop graph) on a fixed subset of sectors with strided one-deviation answer sequences; (ii) IN-PLACE HISTORIES - on a fresh thread a different sampler is sampled, its memory slot is overwritten by the configuration under test, which is then sampled and judged (every configuration behind two different predecessors); (iii) every 9th configuration again with all momenta and masses scaled by 2^-30 and 2^24", (plan.roles.u, plan.roles.xi, plan.roles.p, plan.roles.ab)),
         states: acc.get("executions") + acc.get("orbit_executions"),
         transitions: acc.get("answers_consumed") + acc.get("orbit_answers_consumed"),
         traces: acc.get("points_judged"),
